@@ -2,8 +2,8 @@
 """Generate MANIFEST.json from the table below (single source of truth)."""
 import json, subprocess
 CHECKS = {
- "C10": ("exploration", "race detector + solo-vs-concurrent differential + schedule perturbation at hooked sync points + offline trace checker + deadlock watchdog",
-         "A stress mix of every public entry point (blocking writers, equal sizes so pools collide) runs in a -race build and in a normal build where each concurrent result must equal its solo result; multi-worker lossy encodes run under seeded perturbation policies at the hooked row-synchronisation points, must equal the single-worker bytes, and their event traces are checked against the row protocol; a hung child is a deadlock only if its goroutine dump shows workers parked in the row wait.",
+ "C10": ("exploration", "race detector + solo-vs-concurrent differential + schedule perturbation at hooked sync points + offline trace checker + deadlock watchdog + forced-worker-count runs of every internal parallel section",
+         "A stress mix of every public entry point (blocking writers, equal sizes so pools collide) runs in a -race build and in a normal build where each concurrent result must equal its solo result; multi-worker lossy encodes run under seeded perturbation policies at the hooked row-synchronisation points, must equal the single-worker bytes, and their event traces are checked against the row protocol; a hung child is a deadlock only if its goroutine dump shows workers parked in the row wait; every internal parallel section is entered above its size threshold with forced worker counts and 3 calls in flight, results must equal the one-worker solo result (std and -race builds).",
          "Schedules are sampled, not enumerated; the trace order is sound because MB-end is logged before the signal and MB-begin after the wait returns.", "3/C10"),
  "C11": ("exploration", "history monitor: every result in long-lived processes vs the same call as first call of a fresh process; returned buffers re-hashed; pool-reuse counters prove collisions",
          "All ordered pairs of a 43-entry core plus random call sequences (length 3..30) over a catalogue built to collide in every pool, with GC disabled (pooled objects survive) or forced between calls; any deviation from the fresh-process reference or any change to a previously returned buffer is a violation.",
@@ -15,7 +15,7 @@ CHECKS = {
          "A build-tag hook exports the planes the encoder used as prediction reference after the pass whose tokens are emitted (and again at return); they must equal libwebp's bypass_filtering output, x/image's unfiltered output and, for filter-off streams, webp.Decode, bit for bit, over the lossy option space incl. multi-pass/target-size and forced worker counts.",
          "Hook H5 (internal/verifhook.FramePass) is add-only; libwebp/x-image agreement is required before a verdict (otherwise inconclusive).", "3/C06"),
  "C08": ("exploration", "history round-trip monitor for the lossless animation encoder (added canvases as oracle; AnimDecoder and an independent compositor both play the file back)",
-         "Random frame histories from a mutation grammar are encoded, read back and played; the normalised picture sequences, per-picture display times, total duration, loop count and canvas size must match.",
+         "Random frame histories from a mutation grammar are encoded, read back and played; the normalised picture sequences, per-picture display times, total duration, loop count and canvas size must match; 1/8 of the histories add pre-encoded frames (AddRawFrame, AddFrame(NewBitstreamFrame)) after one or no optimised picture, expected canvases from the reference compositor.",
          "Both sides are normalised by merging consecutive identical canvases; transparent pixels compare equal regardless of colour.", "3/C08"),
  "C09": ("exploration", "reference-model monitor: AnimDecoder vs an independent compositing model on programmatic animations, incl. exhaustive small domain and blend arithmetic",
          "Every snapshot of every explored animation must equal the model's canvas; Reset must replay identically; returned snapshots are re-hashed after later calls. Thorough enumerates the complete 2-frame small domain (6.7M tuples) and all 2^32 (src a,dst a,src c,dst c) blend cases.",
@@ -32,8 +32,8 @@ CHECKS = {
  "C17": ("fault_enumeration", "exhaustive truncation monitor: every prefix of every corpus file through Decode/DecodeConfig/GetFeatures",
          "Every cut point 0..len-1 of each file in a diverse corpus of valid stills is enumerated (exhaustive per file); a prefix result must be an error or equal the complete file's.",
          "Corpus files are small (<= 64 px) so that len(F) decodes per file stay cheap; thorough adds larger files with all cuts in the last 4 KiB and every 97th elsewhere.", "3/C17"),
- "C05": ("exploration", "hostile-input monitor in supervised child processes (recover/fatal/watchdog/alloc accounting/result well-formedness)",
-         "Structure-aware mutation and hand-made declaration bombs against every decoding entry point; each child logs the case before executing it, runs under ulimit -v, and measures TotalAlloc against a bound linear in input length and declared pixel area; hangs are judged only after three isolated re-runs.",
+ "C05": ("exploration", "hostile-input monitor in supervised child processes (recover/fatal/watchdog/alloc accounting/result well-formedness) + CPU-time scaling probe",
+         "Structure-aware mutation and hand-made declaration bombs against every decoding entry point (incl. ReadChunk, animation.Decode, readers without Len(), short reads, forced internal worker counts, extreme-aspect and Muxer-assembled seeds); each child logs the case before executing it, runs under ulimit -v, and measures TotalAlloc against a bound linear in input length and declared pixel area; hangs are judged only after three isolated re-runs; 108 repeated-unit input families are timed (process CPU time) at n and 4n units, super-linear growth is a violation only at ratio > 10 with >= 0.4 s CPU three times in a row.",
          "Declared area comes from an over-approximating scanner; inputs whose declared-size bound exceeds 1.5 GiB are not executed (counted as inconclusive).", "3/C05"),
  "C12": ("exploration", "cross-process differential monitor over GOMAXPROCS values",
          "The same case list runs in child processes of one binary with GOMAXPROCS in {1,2,3,4,8,16,32}; digests of Encode bytes, Decode pixels and parallel frame decoding must equal the GOMAXPROCS=1 child's.",
